@@ -6,6 +6,7 @@ import re
 from click.testing import CliRunner
 
 from .. import asm as A
+from .. import core
 from ..core import blit, listlit, natlit, optlit, zlit
 from ..prop import Prop
 
@@ -124,12 +125,23 @@ class C19(Prop):
         r = CliRunner().invoke(
             asm_format.cli, ["--qc-overlaps", "-i", "AGP"], input=buf.getvalue()
         )
-        rep = re.findall(r"Overlap:\n(\S+) (\S+?):(\d+)-(\d+)\(.\)\n(\S+) (\S+?):(\d+)-(\d+)\(.\)", r.stderr)
-        return {
+        pat = r"Overlap:\n(\S+) (\S+?):(\d+)-(\d+)\(.\)\n(\S+) (\S+?):(\d+)-(\d+)\(.\)"
+        conv = lambda rep: [[p[0], p[1], int(p[2]), int(p[3]), p[4], p[5], int(p[6]), int(p[7])] for p in rep]
+        out = {
             "exit": r.exit_code,
-            "pairs": [[p[0], p[1], int(p[2]), int(p[3]), p[4], p[5], int(p[6]), int(p[7])] for p in rep],
+            "pairs": conv(re.findall(pat, r.stderr)),
             "stdout_is_agp": r.stdout == buf.getvalue(),
         }
+        # the same assembly given as two input files: each file is scanned and reported on its own
+        d = core.BUILD / self.pid / "cli"
+        d.mkdir(parents=True, exist_ok=True)
+        for n in ("first.agp", "second.agp"):
+            (d / n).write_text(buf.getvalue())
+        r2 = CliRunner().invoke(asm_format.cli, ["--qc-overlaps", str(d / "first.agp"), str(d / "second.agp")])
+        secs = re.split(r"Overlaps detected in assembly '([^']*)'", r2.stderr)
+        out["multi"] = {"exit": r2.exit_code, "stdout_twice": r2.stdout == buf.getvalue() * 2,
+                        "sections": [[secs[i], conv(re.findall(pat, secs[i + 1]))] for i in range(1, len(secs) - 1, 2)]}
+        return out
 
     def term(self, case, obs):
         if case["kind"] == "pred":
@@ -216,6 +228,12 @@ class C19(Prop):
             )
             if sorted(c["pairs"]) != wantcli:
                 return f"asm-format reported {c['pairs']}, expected {wantcli}"
+            m = c["multi"]
+            if m["exit"] != 0 or not m["stdout_twice"]:
+                return f"asm-format --qc-overlaps on two files failed or altered output: exit {m['exit']}"
+            wantsec = [[n, wantcli] for n in ("first", "second")] if wantcli else []
+            if [[n, sorted(ps)] for n, ps in m["sections"]] != wantsec:
+                return f"asm-format on two files reported {m['sections']}, expected {wantsec}"
         return None
 
     def key(self, case, obs):
